@@ -102,6 +102,8 @@ impl S3 for FileSystem {
         if src_metadata_path.exists() {
             let dst_metadata_path = self.get_metadata_path(&input.bucket, &input.key, None)?;
             let _ = try_!(fs::copy(src_metadata_path, dst_metadata_path).await);
+        } else {
+            let _ = self.delete_metadata(&input.bucket, &input.key, None);
         }
 
         let md5_sum = self.get_md5_sum(bucket, key).await?;
@@ -146,6 +148,7 @@ impl S3 for FileSystem {
             }
         } else {
             try_!(fs::remove_file(&path).await);
+            let _ = self.delete_metadata(&input.bucket, &input.key, None);
         }
         let output = DeleteObjectOutput::default(); // TODO: handle other fields
         Ok(S3Response::new(output))
@@ -165,6 +168,7 @@ impl S3 for FileSystem {
         let mut deleted_objects: Vec<DeletedObject> = Vec::new();
         for (path, key) in objects {
             try_!(fs::remove_file(path).await);
+            let _ = self.delete_metadata(&input.bucket, &key, None);
 
             let deleted_object = DeletedObject {
                 key: Some(key),
@@ -513,6 +517,9 @@ impl S3 for FileSystem {
 
         if let Some(ref metadata) = metadata {
             self.save_metadata(&bucket, &key, metadata, None).await?;
+        } else {
+            // the new object has no user metadata: drop what a previous object left behind
+            let _ = self.delete_metadata(&bucket, &key, None);
         }
 
         let mut info: InternalInfo = default();
@@ -738,6 +745,8 @@ impl S3 for FileSystem {
         if let Ok(Some(metadata)) = self.load_metadata(&bucket, &key, Some(upload_id)).await {
             self.save_metadata(&bucket, &key, &metadata, None).await?;
             let _ = self.delete_metadata(&bucket, &key, Some(upload_id));
+        } else {
+            let _ = self.delete_metadata(&bucket, &key, None);
         }
 
         let object_path = self.get_object_path(&bucket, &key)?;
